@@ -134,6 +134,29 @@ def fill_steal_fill(rng):
     return h.case("fill_steal_fill", drain=True)
 
 
+def thief_fills(rng):
+    """C05 bias: a handle whose FIRST contact with a priority is a steal (the ring for that priority is
+    created on the steal path), which then queues up to `cap` items of that same priority itself and pops
+    them: everything must come back in priority/arrival order with nothing pushed aside."""
+    n = rng.choice([2, 2, 3])
+    cap = rng.choice([4, 8, 8, 16])
+    h = Hist(rng, n, cap)
+    victim, thief = 0, 1
+    p = rng.choice([0, 5, -3, EXTREMES[0], EXTREMES[-1]])
+    for _ in range(rng.randint(1, 3)):
+        h.ops.append({"op": "lpush", "h": victim, "p": str(p), "x": h.item()})
+    h.lpop(thief, start=victim)                      # steals: the thief's ring for p is born here
+    queued = rng.randint(cap // 2, cap - 1)
+    for i in range(queued):
+        q = p if rng.random() < 0.85 else rng.choice([p, 0, 1, EXTREMES[-1]])
+        h.ops.append({"op": "lpush", "h": thief, "p": str(q), "x": h.item()})
+    h.obs("llen", thief)
+    for _ in range(queued + 2):
+        h.lpop(thief, start=thief)
+    h.drain()
+    return h.case("thief_fills", drain=True)
+
+
 def single_worker(rng):
     """C05 bias: one handle, never more than cap queued, many ties and extremes."""
     cap = rng.choice([1, 2, 3, 4, 8, 16, 64])
